@@ -752,3 +752,21 @@ func (m *Machine) findMethod(T types.Type, name string) *ssa.Function {
 	}
 	return nil
 }
+
+// ---- libp2p pubsub boundary of the CRDT component: the topic validator is
+// captured when it is registered, so that a harness can call it.
+
+func init() {
+	const ps = "github.com/libp2p/go-libp2p-pubsub"
+	natives["(*"+ps+".PubSub).RegisterTopicValidator"] = func(m *Machine, c *frame, fn *ssa.Function, a []Value) Value {
+		m.topicValidator = a[2]
+		m.event("pubsub: topic validator registered")
+		return Iface{}
+	}
+	natives["github.com/ipfs/go-ds-crdt.NewPubSubBroadcaster"] = func(m *Machine, c *frame, fn *ssa.Function, a []Value) Value {
+		return Tuple{(*Value)(nil), m.newErrorString(sym.Str("pubsub broadcaster is outside the model"))}
+	}
+	natives["github.com/multiformats/go-multihash.Sum"] = func(m *Machine, c *frame, fn *ssa.Function, a []Value) Value {
+		return Tuple{[]Value(nil), m.newErrorString(sym.Str("hashing is outside the model"))}
+	}
+}
